@@ -236,6 +236,10 @@ func runC10(c C10Case, ev *Evid) (fs []Finding) {
 	os.MkdirAll(base, 0755)
 	now := c.Now
 	until := effUntil(c.Until, now)
+	if c.ItemPattern == "notes*" || c.ItemPattern == "*.txt" || c.ItemPattern == "notes.txt" {
+		os.MkdirAll(base, 0755)
+		os.WriteFile(filepath.Join(base, "notes.txt"), []byte("not a directory\n"), 0644)
+	}
 	if err := buildTree(base, c.Files, now); err != nil {
 		add("setup", "%v", err)
 		return
@@ -452,7 +456,9 @@ func genTreePatterns(t *rapid.T, files []TreeFile) (string, string) {
 	cands = append(cands, "*")
 	item := rapid.SampledFrom(cands).Draw(t, "itemPattern")
 	if rapid.IntRange(0, 11).Draw(t, "itemNoMatch") == 0 {
-		item = rapid.SampledFrom([]string{"nomatch*", "s9", "grp/zz*", "grp/*/*/*"}).Draw(t, "itemNoMatchPattern")
+		// (the last three match only a stray regular file in the base directory: an item that is not a directory
+		// has no files, which is reported like any other item without files)
+		item = rapid.SampledFrom([]string{"nomatch*", "s9", "grp/zz*", "grp/*/*/*", "notes*", "*.txt", "notes.txt"}).Draw(t, "itemNoMatchPattern")
 	}
 	src := rapid.SampledFrom([]string{"*.wsp", "*.wsp", "*.wsp", "*.wsp", "f?.wsp", "f[12].wsp", "f1.wsp", "f[2-6].wsp", "f*1.wsp", "f*[2-6].wsp"}).Draw(t, "srcPattern")
 	if rapid.IntRange(0, 11).Draw(t, "srcNoMatch") == 0 {
